@@ -432,6 +432,23 @@ impl Sim {
         cl.used_pre.clear();
     }
 
+    /// The connection is lost while the backend already tries to reconnect (status Connecting).
+    pub fn lose_to_connecting(&mut self, c: &str) {
+        self.disconnect(c);
+        let ci = self.ci(c);
+        self.clients[ci].app.world_mut().resource_mut::<RepliconClient>().set_status(RepliconClientStatus::Connecting);
+    }
+
+    pub fn give_up(&mut self, c: &str) -> bool {
+        let ci = self.ci(c);
+        let mut client = self.clients[ci].app.world_mut().resource_mut::<RepliconClient>();
+        if !client.is_connecting() {
+            return false;
+        }
+        client.set_status(RepliconClientStatus::Disconnected);
+        true
+    }
+
     pub fn authorize(&mut self, c: &str) -> bool {
         let ci = self.ci(c);
         if let Some(ce) = self.clients[ci].entity {
